@@ -84,3 +84,38 @@ package selector
 //@           decreases end - i
 //@ func (Selector).Select
 //@   inline
+//@
+//@ // ---- C14: a selector text is interpreted in full or rejected -------------------------------------------------------
+//@ // tokenize cuts the text at every '.' and '[' outside quotes: the first token starts the text, the last one ends it
+//@ // (so no tail is dropped), no token is empty
+//@ func tokenize
+//@   requires len(str) > 0 && str[0] == '.'
+//@   ensures [C14] first: len(result) > 0 && hasPrefix(str, result[0])
+//@   ensures [C14] last: len(result) > 0 && result[len(result) - 1] == substr(str, len(str) - len(result[len(result) - 1]), len(str)) && len(result[len(result) - 1]) <= len(str)
+//@   ensures [C14] nonempty: forall i int :: 0 <= i && i < len(result) ==> len(result[i]) > 0
+//@   ensures [C09] total: true
+//@   loop 0: invariant 0 <= ofs && ofs <= col && col <= len(str) && (col > 0 ==> ofs < col) && (len(toks) == 0 ==> ofs == 0)
+//@   loop 0: invariant len(toks) > 0 ==> hasPrefix(str, toks[0])
+//@   loop 0: invariant forall i int :: 0 <= i && i < len(toks) ==> len(toks[i]) > 0
+//@   loop 0: invariant toks == nil || fresh(toks)
+//@           decreases len(str) - col
+//@
+//@ // Parse: one segment per token, recording the token's text (an optional marker on a mid-selector identity is normalised
+//@ // away); slice segments own their two bounds (no two segments share them); a quoted field segment is a field segment
+//@ func Parse
+//@   // what the parser's regular expressions guarantee about a matching text (read off the patterns; trusted)
+//@   given forall s string :: {reMatches(fieldRegex, s)} reMatches(fieldRegex, s) ==> len(s) >= 2 && s[0] == '.' && s[1] != '"'
+//@   given forall s string :: {reMatches(sliceRegex, s)} reMatches(sliceRegex, s) ==> strings_contains(s, ":") && len(s) >= 1 && s[0] != '"'
+//@   given forall s string :: {reMatches(indexRegex, s)} reMatches(indexRegex, s) ==> len(s) >= 1 && s[0] != '"'
+//@   ensures [C09] total: true
+//@   ensures [C14] nonempty: result1 == nil ==> len(result0) > 0
+//@   ensures [C14,C12] wf: result1 == nil ==> (forall i int :: 0 <= i && i < len(result0) ==> wfSeg(result0[i]))
+//@   ensures [C14,C12] ownbounds: result1 == nil ==> (forall i int, j int :: 0 <= i && i < j && j < len(result0) && len(result0[i].slice) == 2 && len(result0[j].slice) == 2 ==> !samebase(result0[i].slice, result0[j].slice))
+//@   ensures [C14] rejected: result1 != nil ==> result0 == nil
+//@   loop 0: invariant 0 <= k && k <= len(ranged) && len(sel) == k && (sel == nil || fresh(sel))
+//@   loop 0: invariant texts: forall i int :: 0 <= i && i < k ==> (sel[i].str == ranged[i] || (sel[i].identity && sel[i].str == "."))
+//@   loop 0: invariant wf: forall i int :: 0 <= i && i < k ==> wfSeg(sel[i])
+//@   loop 0: invariant owned: forall i int :: 0 <= i && i < k && len(sel[i].slice) == 2 ==> allocated(sel[i].slice)
+//@   loop 0: invariant ownbounds: forall i int, j int :: 0 <= i && i < j && j < k && len(sel[i].slice) == 2 && len(sel[j].slice) == 2 ==> !samebase(sel[i].slice, sel[j].slice)
+//@   loop 0: invariant quoted: forall i int :: 0 <= i && i < k && len(sel[i].str) >= 2 && sel[i].str[1] == '"' ==> segField(sel[i])
+//@           decreases len(ranged) - k
